@@ -224,6 +224,31 @@ def tensor_seeds(calc, keys=None):
     return calc
 
 
+def _avg_summary(model):
+    """the mode average as the atom AVG(x) (its definition is decided by R01.7 on the function itself, called with the amount and the
+    q-point weights): the summary applies to calls that hand over exactly those two and leave every further parameter at its default"""
+    def f(ev, a, k):
+        fd = model.func("cij.core.phonon_contribution.nonshear:average_over_modes")
+        names = [p.arg for p in fd.args.posonlyargs + fd.args.args]
+        b = dict(zip(names, a))
+        for kk, vv in (k.items() if hasattr(k, "items") else []):
+            if kk in b or kk not in names + [p.arg for p in fd.args.kwonlyargs]:
+                raise AnalysisError(f"average_over_modes called with bad keyword {kk}")
+            b[kk] = vv
+        if len(a) > len(names) or not set(names[:2]) <= set(b):
+            raise AnalysisError("average_over_modes called without the amount and the weights")
+        extra = sorted(set(b) - set(names[:2]))
+        if extra:
+            raise AnalysisError(f"average_over_modes called with {extra}: whether the summary of R01.7 (mask on, weights normalised) applies to this call is not known")
+        w_ = b[names[1]]
+        if not (is_sym(w_) and w_ == W):
+            # averaged with something else than the q-point weights of the input: a different quantity
+            return sp.Function("AVG_OTHER_WEIGHTS")(as_sym(b[names[0]]), as_sym(w_) if is_sym(w_) else sp.Symbol("W_OTHER"))
+        return AVG(as_sym(b[names[0]]))
+    f.kw = None
+    return f
+
+
 def physics_seeds(model: Model, pstat_atom=True):
     # the order in which interpolate_modes returns (omega, gamma, V dgamma/dV) is decided by R01.10 / C11 (which fold
     # interpolate_modes themselves and fail there); every other rule starts from the documented order when that fold
@@ -257,7 +282,7 @@ def physics_seeds(model: Model, pstat_atom=True):
         seeds[(CALC, "static_p_array")] = PSTAT / (U.Ry / U.bohr ** 3)
     intr = {
         "cij.core.mode_gamma:interpolate_modes": lambda ev, a, k: Tup([ROLE_VALUE[r] for r in roles]),
-        "cij.core.phonon_contribution.nonshear:average_over_modes": lambda ev, a, k: AVG(as_sym(a[0])),
+        "cij.core.phonon_contribution.nonshear:average_over_modes": _avg_summary(model),
         "cij.c_": c_intrinsic,
     }
     return seeds, intr, calc
